@@ -410,6 +410,22 @@ def keylist_cases(col, r, tmp, n):
             cls, a, b, rec, waste = valid_pair(gen, cls=r.choice(["related", "meta_types", "fixture_mut"]))
             if cls is None:
                 continue
+            if r.random() < 0.6:
+                # an OUTPUT whose data is unchanged and whose own metadata changes under the very member names the mapping
+                # lists for the notebook / cell level: the mapping does not name /cells/*/outputs/*/metadata, so these
+                # changes must be reported and reproduced
+                ks = r.sample(KEYLIST_KEYS, r.randrange(1, 3))
+                oa = {"output_type": "display_data", "metadata": {k: {"v": 1} for k in ks}, "data": {"text/plain": "<Figure>", "image/png": "aGVsbG8gd29ybGQ="}}
+                ob = copy.deepcopy(oa)
+                for k in ks:
+                    ob["metadata"][k] = {"v": 2, "more": [k]}
+                for nbx, o in ((a, oa), (b, ob)):
+                    cell = {"cell_type": "code", "metadata": {}, "source": "plot()", "execution_count": None, "outputs": [o]}
+                    if nbx["nbformat_minor"] >= 5:
+                        cell["id"] = "plotcell"
+                    nbx["cells"].insert(0, cell)
+                if validate_nb(a) or validate_nb(b):
+                    continue
         # every third case: the mapping is combined with a flag of ANOTHER category (-D / -A / -I); the flag's table must
         # not wipe Ignore entries on paths it does not own
         flags = (r.choice(["-D", "-A", "-I"]),) if j % 3 == 0 else ()
